@@ -195,6 +195,56 @@ def minimise_script(line, still):
     return "sy\trun\t" + ";".join(ops)
 
 
+def correspond_confirmed(ctx, lines, label):
+    """vlib.correspond with one addition: a line on which implementation and model (or the oracle) disagree is
+    run again, alone, before anything is reported — a `block` answer is a timing judgement of the harness
+    and must be reproducible."""
+    impl = vlib.run_impl(lines)
+    model = vlib.run_model(lines)
+    ok = True
+    reported = 0
+    for ln, a, b in zip(lines, impl, model):
+        ctx.case(ln, sample={"line": ln, "impl": a, "model": b})
+        ctx.stat("answer:" + a.split(" ", 1)[0])
+        if b.startswith("bad-"):
+            raise RuntimeError("model rejected line %r: %s" % (ln, b))
+        pf = script_oracle(ln, a)
+        if a == b and pf is None:
+            continue
+        a1 = vlib.run_impl([ln])[0]
+        if a1 == b and script_oracle(ln, a1) is None:
+            ctx.stat("unconfirmed-disagreement")
+            continue
+        if reported >= 5:
+            ok = False
+            continue
+        reported += 1
+
+        def still(l2):
+            x, y = vlib.run_impl([l2])[0], vlib.run_model([l2])[0]
+            pf2 = script_oracle(l2, x)
+            return (x != y) == (a1 != b) and (pf2 is None) == (script_oracle(ln, a1) is None) and not y.startswith("bad-")
+        try:
+            line = minimise_script(ln, still)
+        except Exception:
+            line = ln
+        a2, b2 = vlib.run_impl([line])[0], vlib.run_model([line])[0]
+        pf2 = script_oracle(line, a2)
+        if pf2 is None and a2 == b2:
+            line, a2, b2, pf2 = ln, a1, b, script_oracle(ln, a1)     # shrinking lost the failure: report the original
+        if pf2 is not None:
+            new = ctx.violation("property-fails", {"line": line}, "%s; impl=%r model=%r" % (pf2, a2, b2))
+        else:
+            new = ctx.violation("model-impl-disagree", {"line": line, "correspondence": label},
+                                "impl=%r model=%r; the property oracle found no failure on this input" % (a2, b2),
+                                no_input=True)
+        if new:
+            ok = False
+        else:
+            reported -= 1
+    ctx.obligation("%s: implementation = model on %d generated lines" % (label, len(lines)), ok, "correspondence")
+
+
 # ----------------------------------------------------------------------------- concurrent histories
 
 def history_oracle(scen, params, recs):
@@ -555,7 +605,7 @@ def run(ctx):
     if ctx.replay:
         rp = json.load(open(ctx.replay))["input"]
         if "line" in rp:
-            vlib.correspond(ctx, [rp["line"]], oracle=script_oracle, minimise=None, label="sync wrappers")
+            correspond_confirmed(ctx, [rp["line"]], "sync wrappers")
         elif "history" in rp:
             line = "H %s %s | %s" % (rp["scenario"], rp["params"], rp["history"])
             judge_histories(ctx, [line], rp.get("stress_seed", 0))
@@ -563,7 +613,7 @@ def run(ctx):
             run_elk(ctx, [{"id": "replay", "kind": "replay", "src": rp["program"], "want": rp.get("want", ""), "timeout_ms": 8000}])
         return
     lines = vlib.corpus_lines("C25") + [gen_script(ctx.rng) for _ in range(ctx.n(400, 6000))]
-    vlib.correspond(ctx, lines, oracle=script_oracle, minimise=minimise_script, label="sync wrappers")
+    correspond_confirmed(ctx, lines, "sync wrappers")
     # concurrent histories, judged by the certified Lean checker and by the python contract
     hist_ok = True
     nh = 0
